@@ -117,7 +117,7 @@ theorem send_dnload {c : Config} {pc : PC} {v : View} {k : Kind} {p w : Nat} {da
     Polling h (step h c) k p ∧
       Sees h.pageCount s (step h c).dev
         { v with state := .dnloadSync, pending := some op, busyLeft := (s.op v.opIdx).busy,
-                 doneTimeout := (s.op v.opIdx).doneTimeout, fault := (s.op v.opIdx).fault,
+                 doneTimeout := (s.op v.opIdx).doneTimeout, fault := (s.op v.opIdx).fault, soft := (s.op v.opIdx).statusOnly,
                  opIdx := v.opIdx + 1 } 0 := by
   obtain ⟨hr, hs⟩ := dnload_accept (wValue := w) ha.dev hp hst hne hdec hin
   have e1 := step_request ha.exit hn
@@ -133,7 +133,7 @@ theorem erase_iter {c : Config} {v : View} {p : Nat}
     (hf : (s.op v.opIdx).fault % 256 = 0) :
     At h s (steps h (opCost (s.op v.opIdx)) c) (.loopErase (p + 1))
       { v with state := .dnloadIdle, pending := none, busyLeft := [],
-               doneTimeout := (s.op v.opIdx).doneTimeout, fault := (s.op v.opIdx).fault,
+               doneTimeout := (s.op v.opIdx).doneTimeout, fault := (s.op v.opIdx).fault, soft := (s.op v.opIdx).statusOnly,
                opIdx := v.opIdx + 1, flash := setCell v.flash p .erased, erasedLog := v.erasedLog ++ [p] } 0 := by
   have hn : next h c.pc c.resp = (.sent .erase p, .request (dnloadReq 0 (eraseCmd (pageAddr p)))) := by
     rw [ha.pc]; simp [next, hp]
@@ -170,7 +170,7 @@ theorem erase_iter_fault {c : Config} {v : View} {p : Nat}
   rw [e, steps_add, steps_add, steps_add, steps_one, steps_one]
   generalize steps h 2 (steps h (2 * (s.op v.opIdx).busy.length) (step h c)) = c3 at ha3
   have hn4 : next h c3.pc c3.resp = (.halted, .exit 1 (.eraseFailed (pageAddr p) ((s.op v.opIdx).fault % 256))) := by
-    rw [ha3.pc]; simp [next, stDNBUSY, hf]
+    rw [ha3.pc]; cases (s.op v.opIdx).statusOnly <;> simp [next, stDNBUSY, hf, failState, DState.code]
   rw [step_exit ha3.exit hn4]
   exact ⟨rfl, ha3.out⟩
 
@@ -180,14 +180,14 @@ theorem erase_iter_fault {c : Config} {v : View} {p : Nat}
 def writeCost (a b : OpSched) : Nat := 2 * a.busy.length + 2 * b.busy.length + 7
 
 /-- the set-address half of a write iteration, up to the moment the host has slept after the
-    completing GETSTATUS -/
+    completing GETSTATUS (which said status OK, dfuDNLOAD_IDLE) -/
 theorem write_iter_addr {c : Config} {v : View} {p : Nat}
     (ha : At h s c (.loopWrite p) v 0) (hp : p < h.pages) (hpc : p < h.pageCount) (hsm : h.pageCount ≤ 128)
     (hpend : v.pending = none) (hst : v.state = .idle ∨ v.state = .dnloadIdle) (hstat : v.status = 0)
     (hf : (s.op v.opIdx).fault % 256 = 0) :
-    ∃ st, At h s (steps h (2 * (s.op v.opIdx).busy.length + 3) c) (.slept .addr p st 5)
+    At h s (steps h (2 * (s.op v.opIdx).busy.length + 3) c) (.slept .addr p 0 5)
       { v with state := .dnloadIdle, pending := none, busyLeft := [],
-               doneTimeout := (s.op v.opIdx).doneTimeout, fault := (s.op v.opIdx).fault,
+               doneTimeout := (s.op v.opIdx).doneTimeout, fault := (s.op v.opIdx).fault, soft := (s.op v.opIdx).statusOnly,
                opIdx := v.opIdx + 1, ptr := pageAddr p } 0 := by
   have hn : next h c.pc c.resp = (.sent .addr p, .request (dnloadReq 0 (setAddrCmd (pageAddr p)))) := by
     rw [ha.pc]; simp [next, hp]
@@ -196,19 +196,20 @@ theorem write_iter_addr {c : Config} {v : View} {p : Nat}
     (by simp [setAddrCmd]) (decode_setAddrCmd _ _ haddr) (by simp [opOutside, inRange_page hpc])
   obtain ⟨hp2, st, hs2⟩ := poll_busy .addr p (.setAddr (pageAddr p)) (s.op v.opIdx).busy (step h c) _ hp1 hs1 rfl rfl hstat
   obtain ⟨hr3, hs3⟩ := getStatus_done_setAddr hs2 rfl rfl hf hpc
+  simp only [hstat] at hr3
   obtain ⟨ha3, _⟩ := poll_reply hp2 hr3 hs3
   have e : 2 * (s.op v.opIdx).busy.length + 3 = 1 + (2 * (s.op v.opIdx).busy.length + 2) := by omega
   rw [e, steps_add, steps_add, steps_one]
-  exact ⟨_, ha3⟩
+  exact ha3
 
-/-- the set-address half when the schedule makes it fail: the host does not look at the status,
-    sends the data, the device (in dfuERROR) stalls it, pyusb raises, the process dies -/
+/-- the set-address half when the schedule makes it fail, either flavour: the host tests the status
+    after the poll loop (dfu.py:282-284) and exits naming address and status; no data is sent -/
 theorem write_iter_addr_fault {c : Config} {v : View} {p : Nat}
     (ha : At h s c (.loopWrite p) v 0) (hp : p < h.pages) (hpc : p < h.pageCount) (hsm : h.pageCount ≤ 128)
     (hpend : v.pending = none) (hst : v.state = .idle ∨ v.state = .dnloadIdle) (hstat : v.status = 0)
     (hf : (s.op v.opIdx).fault % 256 ≠ 0) :
-    (steps h (2 * (s.op v.opIdx).busy.length + 5) c).exit = some (1, .usbError) ∧
-    (steps h (2 * (s.op v.opIdx).busy.length + 5) c).out = [] := by
+    (steps h (2 * (s.op v.opIdx).busy.length + 4) c).exit = some (1, .addrFailed (pageAddr p) ((s.op v.opIdx).fault % 256)) ∧
+    (steps h (2 * (s.op v.opIdx).busy.length + 4) c).out = [] := by
   have hn : next h c.pc c.resp = (.sent .addr p, .request (dnloadReq 0 (setAddrCmd (pageAddr p)))) := by
     rw [ha.pc]; simp [next, hp]
   have haddr : pageAddr p < 4294967296 := by simp only [pageAddr, flashBase, pageSize]; omega
@@ -217,31 +218,23 @@ theorem write_iter_addr_fault {c : Config} {v : View} {p : Nat}
   obtain ⟨hp2, st, hs2⟩ := poll_busy .addr p (.setAddr (pageAddr p)) (s.op v.opIdx).busy (step h c) _ hp1 hs1 rfl rfl hstat
   obtain ⟨hr3, hs3⟩ := getStatus_fault hs2 rfl rfl hf
   obtain ⟨ha3, _⟩ := poll_reply hp2 hr3 hs3
-  have e : 2 * (s.op v.opIdx).busy.length + 5 = 1 + (2 * (s.op v.opIdx).busy.length + (2 + (1 + 1))) := by omega
-  rw [e, steps_add, steps_add, steps_add, steps_add, steps_one, steps_one, steps_one]
+  have e : 2 * (s.op v.opIdx).busy.length + 4 = 1 + (2 * (s.op v.opIdx).busy.length + (2 + 1)) := by omega
+  rw [e, steps_add, steps_add, steps_add, steps_one, steps_one]
   generalize steps h 2 (steps h (2 * (s.op v.opIdx).busy.length) (step h c)) = c3 at ha3
-  -- the host sends the data block; the device is in dfuERROR and stalls it
-  have hn4 : next h c3.pc c3.resp = (.sent .data p, .request (dnloadReq 2 (h.chunk p))) := by
-    rw [ha3.pc]; simp [next, stDNBUSY]
-  obtain ⟨hr4, hs4⟩ := dnload_in_error (wValue := 2) (data := h.chunk p) ha3.dev rfl rfl rfl
-  have e4 := step_request ha3.exit hn4
-  have hn5 : next h (step h c3).pc (step h c3).resp = (.halted, .exit 1 .usbError) := by
-    rw [e4]; simp [next, onCount, hr4]
-  have hx5 : (step h c3).exit = none := by rw [e4]; exact ha3.exit
-  rw [step_exit hx5 hn5]
-  refine ⟨rfl, ?_⟩
-  show (step h c3).out = []
-  rw [e4]; exact ha3.out
+  have hn4 : next h c3.pc c3.resp = (.halted, .exit 1 (.addrFailed (pageAddr p) ((s.op v.opIdx).fault % 256))) := by
+    rw [ha3.pc]; cases (s.op v.opIdx).statusOnly <;> simp [next, stDNBUSY, hf, failState, DState.code]
+  rw [step_exit ha3.exit hn4]
+  exact ⟨rfl, ha3.out⟩
 
 /-- the data half of a write iteration, from the moment the host has slept after set-address -/
-theorem write_iter_data {c : Config} {v : View} {p st : Nat}
-    (ha : At h s c (.slept .addr p st 5) v 0) (hpc : p < h.pageCount)
+theorem write_iter_data {c : Config} {v : View} {p : Nat}
+    (ha : At h s c (.slept .addr p 0 5) v 0) (hpc : p < h.pageCount)
     (hpend : v.pending = none) (hst : v.state = .dnloadIdle) (hstat : v.status = 0)
     (hptr : v.ptr = pageAddr p) (hlen : (h.chunk p).length = 1024) (her : v.flash p = .erased)
     (hf : (s.op v.opIdx).fault % 256 = 0) :
     At h s (steps h (2 * (s.op v.opIdx).busy.length + 4) c) (.loopWrite (p + 1))
       { v with state := .dnloadIdle, pending := none, busyLeft := [],
-               doneTimeout := (s.op v.opIdx).doneTimeout, fault := (s.op v.opIdx).fault,
+               doneTimeout := (s.op v.opIdx).doneTimeout, fault := (s.op v.opIdx).fault, soft := (s.op v.opIdx).statusOnly,
                opIdx := v.opIdx + 1, flash := setCell v.flash p (.data (h.chunk p)),
                writtenLog := v.writtenLog ++ [p] } 0 := by
   have hn : next h c.pc c.resp = (.sent .data p, .request (dnloadReq 2 (h.chunk p))) := by
@@ -261,8 +254,8 @@ theorem write_iter_data {c : Config} {v : View} {p st : Nat}
   exact ⟨rfl, ha3.exit, ha3.out, ha3.dev⟩
 
 /-- the data half when the schedule makes the write fail: the host exits naming page and status -/
-theorem write_iter_data_fault {c : Config} {v : View} {p st : Nat}
-    (ha : At h s c (.slept .addr p st 5) v 0) (hpc : p < h.pageCount)
+theorem write_iter_data_fault {c : Config} {v : View} {p : Nat}
+    (ha : At h s c (.slept .addr p 0 5) v 0) (hpc : p < h.pageCount)
     (hpend : v.pending = none) (hst : v.state = .dnloadIdle) (hstat : v.status = 0)
     (hptr : v.ptr = pageAddr p) (hlen : (h.chunk p).length = 1024)
     (hf : (s.op v.opIdx).fault % 256 ≠ 0) :
@@ -280,7 +273,7 @@ theorem write_iter_data_fault {c : Config} {v : View} {p st : Nat}
   rw [e, steps_add, steps_add, steps_add, steps_one, steps_one]
   generalize steps h 2 (steps h (2 * (s.op v.opIdx).busy.length) (step h c)) = c3 at ha3
   have hn4 : next h c3.pc c3.resp = (.halted, .exit 1 (.writeFailed (pageAddr p) ((s.op v.opIdx).fault % 256))) := by
-    rw [ha3.pc]; simp [next, stDNLOAD_IDLE, stERROR, hf]
+    rw [ha3.pc]; cases (s.op v.opIdx).statusOnly <;> simp [next, stDNLOAD_IDLE, stERROR, hf, failState, DState.code]
   rw [step_exit ha3.exit hn4]
   exact ⟨rfl, ha3.out⟩
 
